@@ -1109,27 +1109,10 @@ pub fn gen_subject(ctx: &Ctx, stream: u64, i: usize, growing: bool) -> Subject {
     let mut rng = ctx.rng(stream, i as u64);
     match rng.weighted(&[5, 2, 6, 3]) {
         3 => {
-            // overlapping impls of a marker trait: tables with several answers, some of which are
-            // instances of others (`V<P0>`, `V<A>`, `V<B>`, `W<A>` ..), declaration order random
-            let pool = ["V<P0>", "V<A>", "V<B>", "W<A>", "W<P0>", "A", "B", "V<V<P0>>", "V<W<P0>>", "W<B>"];
-            let k = 3 + rng.usize_below(5);
-            let mut text = String::from("struct A {}\nstruct B {}\nstruct V<T> {}\nstruct W<T> {}\n#[marker] trait M {}\n#[marker] trait N {}\n");
-            for _ in 0..k {
-                let h = pool[rng.usize_below(pool.len())];
-                let b = if h.contains("P0") { "<P0>" } else { "" };
-                let wc = if h.contains("P0") && rng.chance(1, 5) { " where P0: M" } else { "" };
-                text.push_str(&format!("impl{} M for {}{} {{}}\n", b, h, wc));
-            }
-            if rng.chance(1, 2) {
-                text.push_str("impl<P0> N for P0 where P0: M {}\n");
-            } else {
-                text.push_str("impl<P0> N for V<P0> where V<P0>: M {}\n");
-            }
-            let mut goals: Vec<String> = vec!["exists<T> { T: M }".into(), "exists<T> { V<T>: M }".into(), "exists<T> { T: N }".into(), "exists<T> { W<T>: M }".into(), "V<A>: M".into()];
-            for a in (1..goals.len()).rev() {
-                let b = rng.usize_below(a + 1);
-                goals.swap(a, b);
-            }
+            // overlapping impls of a marker trait (progen::overlap_program): tables with several answers
+            let (text, mut goals) = overlap_program(&mut rng);
+            goals.truncate(4);
+            goals.push("V<A>: M".into());
             Subject { text, goal_texts: goals, family: "overlap".into(), coinductive: false }
         }
         0 => {
